@@ -119,8 +119,12 @@ def mc(thorough, rootname='default'):
 
 # ---------------------------------------------------------------------------
 
-def py_change(ch):
-    """model change record (JSON) -> sub_context kwargs"""
+STD_NONE = dict(inline=[('$', '$'), ('\\(', '\\)')], display=[('$$', '$$'), ('\\[', '\\]')], groups=[('{', '}')])
+
+
+def py_change(ch, via_none=False):
+    """model change record (JSON) -> sub_context kwargs.  via_none: a delimiter list equal to the documented standard
+    value is requested the documented way, by passing None."""
     kw = {}
     for k, v in ch.items():
         if k in ('in_math', 'en_math', 'en_groups'):
@@ -137,6 +141,8 @@ def py_change(ch):
             val = [(uncodes(a), uncodes(b)) for a, b in v]
         elif k == 'groups':
             val = [(chr(a), chr(b)) for a, b in v]
+        if via_none and k in STD_NONE and val == STD_NONE[k]:
+            val = None
         kw[KWNAME[k]] = val
     return kw
 
@@ -196,17 +202,30 @@ def test_strings(K):
 def check_state(rec, K):
     """Returns (verdict, detail): 'same' | 'drift' | violation clause."""
     from pylatexenc.latexnodes import ParsingState
+    has_std = any(k in STD_NONE and py_change({k: v})[KWNAME[k]] == STD_NONE[k] for ch in rec['hist'] for k, v in ch.items())
+    if has_std and not rec.get('_via_none'):
+        # the same chain with standard delimiter lists requested as None
+        v, d = check_state(dict(rec, _via_none=True), K)
+        if v not in ('same', 'drift'):
+            return v, dict(d, requested_as_none=True)
+    via_none = bool(rec.get('_via_none'))
     ps = pstate.real_state(pstate.make(ctx='none', **ROOTS[rec.get('root', 'default')]))
     chain = [ps]
     snaps = [dict(ps.get_fields())]
+    intended = dict(ps.get_fields())           # the field values a caller asked for, step by step
     for ch in rec['hist']:
-        ps = ps.sub_context(**py_change(ch))
+        kw = py_change(ch, via_none)
+        ps = ps.sub_context(**kw)
+        intended.update(kw)
+        intended = dict(ParsingState(**intended).get_fields())     # with the constructor's own normalisation, step by step
         chain.append(ps)
         snaps.append(dict(ps.get_fields()))
     for o, snap in zip(chain, snaps):
         if o.get_fields() != snap:
             return 'ancestor-altered', dict(before=repr(snap), after=repr(o.get_fields()))
-    fresh = ParsingState(**ps.get_fields())
+    # "a state constructed directly with the same field values": the values that were requested, not whatever the
+    # derived object ended up holding
+    fresh = ParsingState(**intended)
     for s in test_strings(K):
         a = token_stream(s, ps)
         b = token_stream(s, fresh)
